@@ -26,7 +26,7 @@ NA = {
 CHECKS = {
     "C16": dict(
         engine="threadsim",
-        technique="deterministic simulation: seeded bytecode-granularity thread scheduler (sys.monitoring INSTRUCTION pre-emption points, baton-passed real threads, simulated lock) + fake transport with fault injection; history oracle",
+        technique="deterministic simulation: seeded bytecode-granularity thread scheduler (sys.monitoring INSTRUCTION pre-emption points, baton-passed real threads, simulated lock whose timed waits may expire) + fake transport with fault injection; history oracle",
         design_ref="DESIGN.md 3.A, 4.5",
         text="Seeded search over thread interleavings at bytecode granularity (a superset of what CPython can do) of concurrent requests over shared connections, with transport latency/faults; the recorded request history is checked for distinct ids, gap-free sequence numbers per underlying connection and untouched caller ids. Sampling, not proof: a clean batch is evidence over the schedules explored.",
         note="Trusted: the harness's scheduler/lock shim and the id-format reading of the oracle (sequence number = last dash-separated field). stdlib calls made by the code (json, urllib.parse, Request) are atomic steps. Only ak.conn_http, ak.mcaller_http, ak.mcaller are instrumented.",
